@@ -14,7 +14,7 @@ same name, as coded (not an idealised spec):
   Intersect       out := Union(...); out = intersect(out, m) for every input; normalizePaths(out), where
                   intersect normalizes both sides and runs the two-index loop with the four-way switch
   numValidPaths   rangeFields (= walk over strings.Split(path, ".")) with the closure that looks the field
-                  up by name, applies the group rule, moves to fd.Message() and forbids a continuation
+                  up by name, applies the group-like rule (TextName), moves to fd.Message() and forbids a continuation
                   after a list or map field
   New/Append/IsValid  as coded on top of numValidPaths
 
@@ -112,8 +112,8 @@ structure Field where
   name : Path
   /-- `fd.Kind() == protoreflect.GroupKind` -/
   isGroup : Bool
-  /-- `string(fd.Message().Name())` (empty when `fd.Message() == nil`) -/
-  msgName : Path
+  /-- `fd.TextName()`: the field name, or the message type name for a group-like field -/
+  textName : Path
   /-- index of `fd.Message()` in the schema table; `none` when `fd.Message() == nil` -/
   target : Option Nat
   /-- `fd.IsList()` -/
@@ -141,16 +141,16 @@ when it returns false with "message does not have this field":
 fd := md.Fields().ByName(field)
 if fd == nil {
     gd := md.Fields().ByName(strings.ToLower(field))
-    if gd != nil && gd.Kind() == GroupKind && string(gd.Message().Name()) == field { fd = gd }
-} else if fd.Kind() == GroupKind && string(fd.Message().Name()) != field { fd = nil }
+    if gd != nil && gd.Kind() == GroupKind && gd.TextName() == field { fd = gd }
+} else if fd.Kind() == GroupKind && fd.TextName() != field { fd = nil }
 ``` -/
 def lookupField (md : MsgDef) (field : Path) : Option Field :=
   match byName md field with
   | none =>
     match byName md (toLower field) with
-    | some gd => if gd.isGroup && gd.msgName == field then some gd else none
+    | some gd => if gd.isGroup && gd.textName == field then some gd else none
     | none => none
-  | some fd => if fd.isGroup && fd.msgName != field then none else some fd
+  | some fd => if fd.isGroup && fd.textName != field then none else some fd
 
 /-- `md = fd.Message(); if fd.IsList() || fd.IsMap() { md = nil }` -/
 def nextMsg (schema : Schema) (fd : Field) : Option MsgDef :=
